@@ -5,7 +5,7 @@ import json, os, re, glob
 HERE = os.path.dirname(os.path.abspath(__file__))
 SEED = os.path.join(os.path.dirname(HERE), "seeded")
 rows = []
-for d in sorted(glob.glob(os.path.join(SEED, "C??"))) + sorted(glob.glob(os.path.join(SEED, "R2-C??"))):
+for d in sorted(glob.glob(os.path.join(SEED, "C??"))) + sorted(glob.glob(os.path.join(SEED, "R2-C??"))) + sorted(glob.glob(os.path.join(SEED, "R3-C??*"))):
     sid = os.path.basename(d)
     ag = {}
     try:
